@@ -284,11 +284,17 @@ pub fn run(prop: &str, tier: &str, replay: Option<&str>) -> i32 {
     }
     // (a) histories: all sequences of operations up to a depth, sequentially in this process
     {
-        let depth = if thorough { 5 } else { 3 };
-        let sec = Section::new(&format!("histories/depth<={}", depth), &format!("every sequence of <= {} operations over {} operations on shared keys and issuers; the output of the last operation must equal the output of the same operation executed first in a fresh process", depth, N_OPS));
+        // (the search is sequential by construction - the process is the subject - and operations that sign with RSA cost
+        // milliseconds: all 16 operations to depth 4 in the thorough tier, the 9 operations without an RSA signature to depth 5)
+        let depth = if thorough { 4 } else { 3 };
+        let sec = Section::new(&format!("histories/depth<={}", depth), &format!("every sequence of <= {} operations over {} operations on shared keys and issuers (thorough: also every sequence of 5 over the 9 operations that do not sign with RSA); the output of the last operation must equal the output of the same operation executed first in a fresh process", depth, N_OPS));
         let mut hist: Vec<usize> = Vec::new();
+        const CHEAP: [usize; 9] = [0, 1, 2, 6, 7, 8, 9, 10, 11];
         fn rec(w: &World, sec: &Section, refs: &[String], hist: &mut Vec<usize>, left: usize) {
-            for op in 0..N_OPS {
+            rec_over(w, sec, refs, hist, left, &(0..N_OPS).collect::<Vec<_>>(), 0)
+        }
+        fn rec_over(w: &World, sec: &Section, refs: &[String], hist: &mut Vec<usize>, left: usize, ops: &[usize], record_from: usize) {
+            for &op in ops {
                 hist.push(op);
                 // replay the whole history from the start of the sequence (state inside the process persists anyway)
                 let mut last = Err("not run".to_string());
@@ -306,9 +312,11 @@ pub fn run(prop: &str, tier: &str, replay: Option<&str>) -> i32 {
                     out.findings.push(Finding::new("HISTORY-DEPENDENT-OUTPUT", op_name(op), format!("after [{}] the output digest is {} but executed first in a fresh process it is {}", hist.iter().map(|h| op_name(*h)).collect::<Vec<_>>().join(" ; "), got, refs[op])));
                 }
                 let hl = hist.clone();
-                sec.record(&|| hl.iter().map(|h| op_name(*h)).collect::<Vec<_>>().join(" ; "), &|| serde_json::json!({"history": hl}), out);
+                if hist.len() > record_from {
+                    sec.record(&|| hl.iter().map(|h| op_name(*h)).collect::<Vec<_>>().join(" ; "), &|| serde_json::json!({"history": hl}), out);
+                }
                 if left > 1 {
-                    rec(w, sec, refs, hist, left - 1);
+                    rec_over(w, sec, refs, hist, left - 1, ops, record_from);
                 }
                 hist.pop();
             }
@@ -331,6 +339,11 @@ pub fn run(prop: &str, tier: &str, replay: Option<&str>) -> i32 {
         } else {
             rec(&w, &sec, &ref_digests, &mut hist, depth);
             sec.level_done(format!("all histories of length <= {}", depth));
+            if thorough {
+                // histories of exactly 5 over the cheap operations (shorter ones are covered above)
+                rec_over(&w, &sec, &ref_digests, &mut hist, 5, &CHEAP, 4);
+                sec.level_done("all histories of length 5 over the 9 operations without an RSA signature");
+            }
         }
         rep.add(sec);
     }
